@@ -47,7 +47,7 @@ package allocation
 //@   ensures [C05:once] a.relayPacketConn != nil ==> pktWrites[a.relayPacketConn] == old(pktWrites[a.relayPacketConn]) + 1
 //@   ensures [C01:only-relay] forall c :: c != a.relayPacketConn ==> pktWrites[c] == old(pktWrites[c])
 //@   ensures [C05:no-socket] a.relayPacketConn == nil ==> err != nil && pktWrites == old(pktWrites)
-//@   assigns pktWrites
+//@   assigns pktWrites, pktWriteFails
 
 //@      // ---- permissions (C01, C07). famOK mirrors RFC 6156: the peer must be of the allocation's address family.
 //@ spec func famOK(ip net.IP, fam int) bool = fam == 1 ? isV4(ip) : (fam == 2 ? (!isV4(ip) && validIP(ip)) : false)
@@ -341,12 +341,17 @@ package allocation
 
 //@ func (*Allocation).RemoveTCPConnection
 //@   requires m != nil && tcpConnsWF(a) && a.log != nil
+//@   ensures tcpUnregs == old(tcpUnregs) + 1
+//@   ghost-set tcpUnregs = old(tcpUnregs) + 1 when true
 //@   ensures [C15,C16:removed] !has(a.tcpConnections, connectionID)
 //@   ensures [C15,C16:closed-once] socketsClosed == old(socketsClosed) + (old(has(a.tcpConnections, connectionID)) ? 1 : 0)
 //@   ensures tcpConnsWF(a)
 //@   ensures forall t :: dur(t) == old(dur(t)) && timerfn(t) == old(timerfn(t)) && (armed(t) ==> old(armed(t)))
-//@   assigns entries(a.tcpConnections), socketsClosed, timers
+//@   assigns entries(a.tcpConnections), socketsClosed, timers, tcpUnregs
 
+//@      // registration / removal counters (ghost): how the accept loop is shown to leave no unannounced connection behind
+//@ ghost var tcpRegs int
+//@ ghost var tcpUnregs int
 //@ func (*Manager).addTCPConnection$1
 //@   requires tcpConn != nil && m != nil && m.log != nil && allocation != nil && tcpConnsWF(allocation) && allocation.log != nil
 //@   ensures [C16:bind-deadline] !old(atomic(tcpConn.isBound)) ==> !has(allocation.tcpConnections, connectionID)
@@ -360,7 +365,9 @@ package allocation
 //@   ensures [C16:no-dupe] res1 == nil ==> typeis(remoteAddrOf(conn), *net.TCPAddr) && forall k :: old(haskey(allocation.tcpConnections, k)) ==> !sameTCPPeer(old(valat(allocation.tcpConnections, k)).Conn, remoteAddrOf(conn).(*net.TCPAddr))
 //@   ensures [C16:fail-unchanged] res1 != nil ==> forall k :: haskey(allocation.tcpConnections, k) == old(haskey(allocation.tcpConnections, k))
 //@   ensures tcpConnsWF(allocation)
-//@   assigns entries(allocation.tcpConnections), timers
+//@   ensures tcpRegs == old(tcpRegs) + (res1 == nil ? 1 : 0)
+//@   ghost-set tcpRegs = old(tcpRegs) + 1 when res1 == nil
+//@   assigns entries(allocation.tcpConnections), timers, tcpRegs
 //@   loop 0 invariant allocsNonNil(m) && tcpConnsWF(allocation) && forall k :: seenkey(k) ==> !has(valat(m.allocations, k).tcpConnections, connectionID)
 
 //@ func (*Manager).CreateTCPConnection
@@ -372,7 +379,7 @@ package allocation
 //@   ensures [C15,C16:fail-no-leak] res1 != nil ==> socketsOpened - socketsClosed == old(socketsOpened - socketsClosed) && forall k :: haskey(allocation.tcpConnections, k) == old(haskey(allocation.tcpConnections, k))
 //@   ensures [C16:ok-one-socket] res1 == nil ==> socketsOpened - socketsClosed == old(socketsOpened - socketsClosed) + 1
 //@   ensures tcpConnsWF(allocation)
-//@   assigns entries(allocation.tcpConnections), timers, socketsOpened, socketsClosed
+//@   assigns entries(allocation.tcpConnections), timers, socketsOpened, socketsClosed, tcpRegs
 
 //@ func (*Manager).GetTCPConnection
 //@   requires allocsNonNil(m) && forall k :: haskey(m.allocations, k) ==> tcpConnsWF(valat(m.allocations, k))
@@ -410,6 +417,7 @@ package allocation
 //@   at-call github.com/pion/stun/v3.Build assert [C16:attempt-indication] len(arg0) == 4 && typeis(arg0[2], proto.PeerAddress) && typeis(arg0[3], proto.ConnectionID) && sameSlice(unbox(arg0[2], proto.PeerAddress).IP, tcpAddr.IP) && unbox(arg0[2], proto.PeerAddress).Port == tcpAddr.Port && unbox(arg0[3], proto.ConnectionID) == cid && has(a.tcpConnections, cid)
 //@   at-call (*Manager).DeleteAllocation assert [C04,C15:own-tuple] recv == manager && arg0 == a.fiveTuple
 //@   loop 0 invariant listenReady(a, manager)
+//@   loop 0 invariant [C15,C16:no-unannounced-connection-left] tcpRegs - tcpUnregs - (pktWrites[a.TurnSocket] - pktWriteFails) == old(tcpRegs - tcpUnregs - (pktWrites[a.TurnSocket] - pktWriteFails))
 //@   loop 0 invariant allocOf(manager, a.fiveTuple.SrcAddr, a.fiveTuple.DstAddr, int(a.fiveTuple.Protocol)) != nil ==> closeReady(allocOf(manager, a.fiveTuple.SrcAddr, a.fiveTuple.DstAddr, int(a.fiveTuple.Protocol)))
 
 //@      // ---- C18: lock discipline of the remaining lock-taking functions of this package (`lockonly`: only lock
